@@ -608,7 +608,10 @@ class AnsiString:
         else:
             raise TypeError('Invalid type for __getitem__')
 
-        new_s = AnsiString(self._s[val])
+        # The slice takes its characters as they are: text that happens to look like an escape sequence (assign_str() and
+        # concatenation can produce it) must not be parsed a second time
+        new_s = AnsiString()
+        new_s._s = self._s[val]
 
         if not new_s._s:
             # Special case - string is now empty
